@@ -1360,6 +1360,13 @@ class Evaluator:
                 and not nm.rsplit(".", 1)[-1].startswith("__") and nm not in self.opaque
             if (nm in self.inline or auto) and depth < self.max_inline_depth and nm not in self._inlining:
                 r = self.p.lookup(nm)
+                # a generator function has no return value to inline: the call stays an opaque term naming the generator and its arguments
+                if r and r[0] in ("func", "method") and any(isinstance(n_, (ast.Yield, ast.YieldFrom)) for n_ in ast.walk(r[1])):
+                    r = None
+                # nor has a self-recursive procedure that only mutates its arguments (a recursive dictionary walk): an opaque call event
+                if r and r[0] == "func" and not any(isinstance(n_, ast.Return) and n_.value is not None for n_ in ast.walk(r[1])) \
+                        and any(isinstance(n_, ast.Call) and isinstance(n_.func, ast.Name) and n_.func.id == r[1].name for n_ in ast.walk(r[1])):
+                    r = None
                 if r and r[0] in ("func", "method"):
                     self._inlining.append(nm)
                     try:
